@@ -60,21 +60,21 @@ func (am *fakeAM) handler(w http.ResponseWriter, req *http.Request) {
 	}
 	ids := parseBody(b)
 	am.mu.Lock()
-	ok := am.r.Intn(100) >= am.failPct
+	st := okStatuses[am.r.Intn(len(okStatuses))]
+	if am.r.Intn(100) < am.failPct {
+		st = badStatuses[am.r.Intn(len(badStatuses))]
+	}
 	lat := 0
 	if am.latencyUs > 0 {
 		lat = am.r.Intn(am.latencyUs)
 	}
-	am.log = append(am.log, arrival{IDs: ids, OK: ok})
+	am.log = append(am.log, arrival{IDs: ids, Status: st, OK: is2xx(st)})
 	am.mu.Unlock()
 	if lat > 0 {
 		time.Sleep(time.Duration(lat) * time.Microsecond)
 	}
-	if ok {
-		w.WriteHeader(http.StatusOK)
-	} else {
-		w.WriteHeader(http.StatusInternalServerError)
-	}
+	// 301 / 307 are answered without a Location header: the client returns them as final responses
+	w.WriteHeader(st)
 }
 
 type world struct {
@@ -116,6 +116,9 @@ func (w *world) do(ctx context.Context, client *http.Client, req *http.Request) 
 	}
 	am.mu.Unlock()
 	if cf {
+		if len(ids)%2 == 0 {
+			return nil, context.DeadlineExceeded // timed out before reaching the Alertmanager
+		}
 		return nil, errors.New("verif: connection refused")
 	}
 	if client == nil {
@@ -533,7 +536,7 @@ func runConc(idBase *int, seed uint64, idx int, p *concParams, cf *gallina.CaseF
 		logT := make([]string, len(am.log))
 		var arrived []int64
 		for k, a := range am.log {
-			logT[k] = gallina.Pair(gallina.ListZ(a.IDs), gallina.Bool(a.OK))
+			logT[k] = gallina.Pair(gallina.ListZ(a.IDs), okTerm(a.Status))
 			arrived = append(arrived, a.IDs...)
 		}
 		cfN := am.connFailed
@@ -666,7 +669,7 @@ func reproDrainOverlap(idBase *int, seed uint64, cf *gallina.CaseFile, meta *gal
 	logT := make([]string, len(am.log))
 	var arrived []int64
 	for k, a := range am.log {
-		logT[k] = gallina.Pair(gallina.ListZ(a.IDs), gallina.Bool(a.OK))
+		logT[k] = gallina.Pair(gallina.ListZ(a.IDs), okTerm(a.Status))
 		arrived = append(arrived, a.IDs...)
 	}
 	am.mu.Unlock()
